@@ -1,7 +1,1169 @@
-//! C08 — node-level correspondence harness (stub; see /verif/AGENT_GUIDE.md).
+//! C08 — a crash at any point of block import recovers to a consistent, convergent state.
+//!
+//! The harness re-executes ITSELF as a child process (`vh-c08 C08 --out DIR child …`) that runs a real
+//! node on a directory and delivers a list of blocks serialised; with `VERIF_CRASH_AT=n[:after]` the
+//! child is aborted (SIGABRT, `ckb_db::verif_crash`) just before / right after its n-th RocksDB commit.
+//! The parent then (1) opens the crashed database without services and evaluates the consistency
+//! oracle, (2) restarts a real node on it (InitLoadUnverified), (3) re-delivers the whole history and
+//! checks convergence to the crash-free reference run.
+//!
+//! Protocol (model side: lean/CkbVerif/Driver/C01.lean, shared with C01):
+//!   blk <id> <parent> <num> <epoch> <work> <nc> <ok>                 -> ok
+//!   deliver <id> <hint>       serialised delivery                    -> state line
+//!   commits                   RocksDB commits since the start        -> <n>
+//!   crashdeliver <id> <k>     delivery killed just before its k-th commit -> persisted state line
+//!   restart <maxEpochLen> <scan order>                               -> state line after start-up
+//!   burst <ids>               (repeated crashes) final answer only   -> td=<n>
+//! state line: cb=<id>:<new|known|err|drop>,.. tip=<id> td=<n> orph=<k> stored=<ids> ext=<id>:<td>,..
+//!             ver=<ids> inv=<ids>
+//!
+//! Case labels carry what a replay needs: `el=<epoch length>` (and `n1= n2=` for repeated crashes).
+//!
+//! Canonicalisation of callbacks after a restart: InitLoadUnverified submits blocks WITHOUT callback,
+//! the model gives every delivery a notional callback. For a block sitting in the orphan pool without
+//! a harness callback ("foreign"), the harness synthesises the verdict the model reports from the
+//! observable outcome: `drop` when it is re-delivered while pooled (entry replaced), `new` when it was
+//! released and got an ext, `err` when it was released and deleted.
 use crate::common::*;
+use crate::node::*;
+use ckb_chain::{LonelyBlock, VerifyResult};
+use ckb_db::RocksDB;
+use ckb_db_schema::{COLUMNS, COLUMN_BLOCK_HEADER};
+use ckb_shared::block_status::BlockStatus;
+use ckb_store::{ChainDB, ChainStore};
+use ckb_types::core::{BlockView, TransactionView};
+use ckb_types::packed::{self, Byte32, OutPoint};
+use ckb_types::prelude::*;
+use ckb_types::U256;
+use std::collections::{BTreeMap, BTreeSet, HashMap, HashSet};
+use std::io::Write as IoWrite;
+use std::path::{Path, PathBuf};
+use std::sync::{Arc, Mutex};
+use std::time::{Duration, Instant};
 
-pub fn run(_opts: &Opts) {
-    eprintln!("C08: harness not implemented");
-    std::process::exit(2);
+const WAIT_TIMEOUT: Duration = Duration::from_secs(60);
+const WINDOW: (u64, u64) = (2, 4);
+const GCELLS: u64 = 32;
+const SIGABRT: i32 = 6;
+
+fn node_cfg(epoch_len: u64) -> NodeCfg {
+    NodeCfg { epoch_len, window: WINDOW, genesis_cells: GCELLS, maturity_epochs: 0, with_pool: false, tx_pool: None }
 }
+
+// ------------------------------------------------------------------------------------------------
+// callbacks (copied from c01.rs)
+// ------------------------------------------------------------------------------------------------
+
+#[derive(Clone, Copy, PartialEq, Eq, PartialOrd, Ord, Debug)]
+enum Verdict {
+    New,
+    Known,
+    Err,
+    Drop,
+}
+
+impl Verdict {
+    fn as_str(self) -> &'static str {
+        match self {
+            Verdict::New => "new",
+            Verdict::Known => "known",
+            Verdict::Err => "err",
+            Verdict::Drop => "drop",
+        }
+    }
+}
+
+#[derive(Default)]
+struct CbLog {
+    events: Vec<(usize, Verdict)>,
+    fired: usize,
+    dropped: usize,
+}
+
+struct Guard {
+    id: usize,
+    log: Arc<Mutex<CbLog>>,
+    called: bool,
+}
+
+impl Guard {
+    fn fire(mut self, r: VerifyResult) {
+        self.called = true;
+        let v = match r {
+            Ok(true) => Verdict::New,
+            Ok(false) => Verdict::Known,
+            Err(_) => Verdict::Err,
+        };
+        let mut l = self.log.lock().unwrap();
+        l.events.push((self.id, v));
+        l.fired += 1;
+    }
+}
+
+impl Drop for Guard {
+    fn drop(&mut self) {
+        if !self.called {
+            let mut l = self.log.lock().unwrap();
+            l.events.push((self.id, Verdict::Drop));
+            l.dropped += 1;
+        }
+    }
+}
+
+// ------------------------------------------------------------------------------------------------
+// blocks
+// ------------------------------------------------------------------------------------------------
+
+#[derive(Clone, Copy, PartialEq, Eq, Debug)]
+enum Kind {
+    Valid,
+    Ctx,
+    Nc,
+}
+
+impl Kind {
+    fn nc(self) -> bool {
+        self != Kind::Nc
+    }
+    fn ok(self) -> bool {
+        self == Kind::Valid
+    }
+    fn from_flags(nc: bool, ok: bool) -> Kind {
+        if !nc {
+            Kind::Nc
+        } else if !ok {
+            Kind::Ctx
+        } else {
+            Kind::Valid
+        }
+    }
+}
+
+fn tweak_for(kind: Kind, id: usize, number: u64, fdl: u64) -> Tweak {
+    match kind {
+        Kind::Valid => Tweak::None,
+        Kind::Nc => unreachable!("built by build_nc_invalid"),
+        Kind::Ctx => {
+            let n = if number > fdl { 3 } else { 2 };
+            match id % n {
+                0 => Tweak::Dao,
+                1 => Tweak::Extension,
+                _ => Tweak::CellbaseCapacity(1),
+            }
+        }
+    }
+}
+
+#[derive(Clone)]
+struct Blk {
+    id: usize,
+    parent: usize,
+    block: Arc<BlockView>,
+    hash: Byte32,
+    num: u64,
+    epoch: u64,
+    work: u128,
+    kind: Kind,
+    /// the transaction this block proposes (committed by its grandchild)
+    tx: Option<TransactionView>,
+}
+
+fn u256_u128(x: &U256) -> u128 {
+    x.to_string().parse::<u128>().expect("difficulty fits u128")
+}
+
+fn genesis_blk(consensus: &ckb_chain_spec::consensus::Consensus) -> Blk {
+    let g = consensus.genesis_block().clone();
+    Blk { id: 0, parent: 0, hash: g.hash(), num: 0, epoch: g.epoch().number(), work: u256_u128(&g.header().difficulty()), kind: Kind::Valid, block: Arc::new(g), tx: None }
+}
+
+/// see c01.rs: a block failing the merkle-root check, registered in the builder so that children can be built
+fn build_nc_invalid(b: &mut ChainBuilder, parent: &Byte32, spec: BlockSpec) -> BlockView {
+    let v = b.build(parent, &BlockSpec { tweak: Tweak::TxRoot, ..spec });
+    let raw = v.data().header().raw().as_builder().transactions_root(Byte32::zero()).build();
+    let header = v.data().header().as_builder().raw(raw).build();
+    let block = v.data().as_builder().header(header).build().into_view_without_reset_header();
+    assert!(block.transactions_root() != block.calc_transactions_root() && block.hash() != v.hash());
+    b.blocks.remove(&v.hash());
+    b.blocks.insert(block.hash(), block.clone());
+    block
+}
+
+/// Deterministic in (id, parent chain): the block at height h proposes a transaction spending genesis
+/// cell h-1 (salted by its id) and commits the one proposed by its grandparent, so that forks differ in
+/// their live-cell sets.
+fn build_blk(b: &mut ChainBuilder, id: usize, parent: &Blk, grand: Option<&Blk>, kind: Kind) -> Blk {
+    let fdl = b.consensus.finalization_delay_length();
+    let cells = genesis_cells(&b.consensus);
+    let h = parent.num + 1;
+    let tx = if ((h - 1) as usize) < cells.len() { Some(spend_tx(&cells[(h - 1) as usize..h as usize], 1, 1000, id as u64)) } else { None };
+    let mut spec = BlockSpec { salt: id as u64, ..Default::default() };
+    if let Some(t) = &tx {
+        spec.proposals = vec![t.proposal_short_id()];
+    }
+    if parent.id != 0 {
+        if let Some(t) = grand.and_then(|g| g.tx.clone()) {
+            spec.txs = vec![t];
+        }
+    }
+    let block = if kind == Kind::Nc {
+        build_nc_invalid(b, &parent.hash, spec)
+    } else {
+        spec.tweak = tweak_for(kind, id, h, fdl);
+        b.build(&parent.hash, &spec)
+    };
+    Blk { id, parent: parent.id, hash: block.hash(), num: block.number(), epoch: block.epoch().number(), work: u256_u128(&block.header().difficulty()), kind, block: Arc::new(block), tx }
+}
+
+fn blk_line(b: &Blk) -> String {
+    let ok = if b.kind == Kind::Nc { true } else { b.kind.ok() };
+    format!("blk {} {} {} {} {} {} {}", b.id, b.parent, b.num, b.epoch, b.work, b.kind.nc() as u8, ok as u8)
+}
+
+fn show_ids(v: &[usize]) -> String {
+    if v.is_empty() { "-".into() } else { v.iter().map(|i| i.to_string()).collect::<Vec<_>>().join(",") }
+}
+
+fn parse_ids(s: &str) -> Vec<usize> {
+    if s == "-" || s.is_empty() {
+        return vec![];
+    }
+    s.split(',').map(|x| x.parse::<usize>().unwrap_or_else(|_| panic!("bad id list {s}"))).collect()
+}
+
+// blocks file: u32 n, then per block (ids 1..=n): 32-byte hash, u32 length, molecule bytes of packed::Block
+fn write_blocks(path: &Path, blks: &[Blk]) {
+    let mut buf: Vec<u8> = vec![];
+    buf.extend_from_slice(&((blks.len() - 1) as u32).to_le_bytes());
+    for b in blks.iter().skip(1) {
+        buf.extend_from_slice(b.hash.as_slice());
+        let bytes = b.block.data().as_slice().to_vec();
+        buf.extend_from_slice(&(bytes.len() as u32).to_le_bytes());
+        buf.extend_from_slice(&bytes);
+    }
+    std::fs::write(path, buf).expect("write blocks file");
+}
+
+fn read_blocks(path: &Path, consensus: &ckb_chain_spec::consensus::Consensus) -> Vec<Blk> {
+    let buf = std::fs::read(path).expect("read blocks file");
+    let mut p = 0usize;
+    let rd_u32 = |p: &mut usize| {
+        let v = u32::from_le_bytes(buf[*p..*p + 4].try_into().unwrap());
+        *p += 4;
+        v as usize
+    };
+    let n = rd_u32(&mut p);
+    let mut v = vec![genesis_blk(consensus)];
+    for id in 1..=n {
+        let hash = Byte32::from_slice(&buf[p..p + 32]).unwrap();
+        p += 32;
+        let len = rd_u32(&mut p);
+        let block = packed::Block::from_slice(&buf[p..p + len]).expect("block bytes").into_view_without_reset_header();
+        p += len;
+        assert_eq!(block.hash(), hash, "child: block {id} hash differs from the parent's");
+        v.push(Blk { id, parent: 0, hash, num: block.number(), epoch: block.epoch().number(), work: 0, kind: Kind::Valid, block: Arc::new(block), tx: None });
+    }
+    v
+}
+
+// ------------------------------------------------------------------------------------------------
+// state lines
+// ------------------------------------------------------------------------------------------------
+
+#[derive(Default, Clone)]
+struct StateView {
+    tip: Option<usize>,
+    td: u128,
+    orph: usize,
+    stored: Vec<usize>,
+    ext: Vec<(usize, u128)>,
+    ver: Vec<usize>,
+    inv: Vec<usize>,
+    ext_false: Vec<usize>,
+}
+
+fn fill_rows<S: ChainStore>(store: &S, blks: &[Blk], v: &mut StateView) {
+    for b in blks {
+        if store.get(COLUMN_BLOCK_HEADER, b.hash.as_slice()).is_some() {
+            v.stored.push(b.id);
+        }
+        if let Some(ext) = store.get_block_ext(&b.hash) {
+            v.ext.push((b.id, u256_u128(&ext.total_difficulty)));
+            match ext.verified {
+                Some(true) => v.ver.push(b.id),
+                Some(false) => v.ext_false.push(b.id),
+                None => {}
+            }
+        }
+    }
+}
+
+fn view_of_node(node: &Node, blks: &[Blk], by_hash: &HashMap<Byte32, usize>) -> StateView {
+    let snap = node.shared.snapshot();
+    let mut v = StateView { tip: by_hash.get(&snap.tip_hash()).copied(), td: u256_u128(snap.total_difficulty()), orph: node.controller().orphan_blocks_len(), ..Default::default() };
+    fill_rows(node.store(), blks, &mut v);
+    for b in blks {
+        if node.shared.get_block_status(&b.hash) == BlockStatus::BLOCK_INVALID {
+            v.inv.push(b.id);
+        }
+    }
+    v
+}
+
+/// the persisted state of a database opened without services
+fn view_of_store(db: &ChainDB, blks: &[Blk], by_hash: &HashMap<Byte32, usize>) -> StateView {
+    let mut v = StateView::default();
+    if let Some(t) = db.get_tip_header() {
+        v.tip = by_hash.get(&t.hash()).copied();
+        if let Some(e) = db.get_block_ext(&t.hash()) {
+            v.td = u256_u128(&e.total_difficulty);
+        }
+    }
+    fill_rows(db, blks, &mut v);
+    v
+}
+
+fn fmt_line(cbs: &[(usize, Verdict)], v: &StateView) -> String {
+    let cb = if cbs.is_empty() { "-".to_string() } else { cbs.iter().map(|(i, v)| format!("{}:{}", i, v.as_str())).collect::<Vec<_>>().join(",") };
+    let ext = if v.ext.is_empty() { "-".to_string() } else { v.ext.iter().map(|(i, t)| format!("{i}:{t}")).collect::<Vec<_>>().join(",") };
+    format!(
+        "cb={} tip={} td={} orph={} stored={} ext={} ver={} inv={}",
+        cb,
+        v.tip.map(|t| t.to_string()).unwrap_or("?".into()),
+        v.td,
+        v.orph,
+        show_ids(&v.stored),
+        ext,
+        show_ids(&v.ver),
+        show_ids(&v.inv)
+    )
+}
+
+fn line_field<'a>(line: &'a str, key: &str) -> Option<&'a str> {
+    line.split(' ').find_map(|t| t.strip_prefix(key))
+}
+
+fn hash_map(blks: &[Blk]) -> HashMap<Byte32, usize> {
+    blks.iter().map(|b| (b.hash.clone(), b.id)).collect()
+}
+
+// ------------------------------------------------------------------------------------------------
+// driving a live node (child process on a fresh directory: callback counting; restarted node: fences)
+// ------------------------------------------------------------------------------------------------
+
+struct Delivery {
+    hint: Vec<usize>,
+    cbs: Vec<(usize, Verdict)>,
+    view: StateView,
+}
+
+struct Runner<'a> {
+    node: &'a Node,
+    blks: &'a [Blk],
+    by_hash: HashMap<Byte32, usize>,
+    log: Arc<Mutex<CbLog>>,
+    handed: usize,
+    handed_by_id: HashMap<usize, usize>,
+    /// restarted node: InitLoadUnverified's deliveries carry no callback, so quiescence is established
+    /// by a fence through the verify queue instead of callback counting
+    fenced: bool,
+    /// ids in the orphan pool without a harness callback
+    foreign: BTreeSet<usize>,
+}
+
+impl<'a> Runner<'a> {
+    fn new(node: &'a Node, blks: &'a [Blk], fenced: bool) -> Runner<'a> {
+        Runner { node, blks, by_hash: hash_map(blks), log: Arc::new(Mutex::new(CbLog::default())), handed: 0, handed_by_id: HashMap::new(), fenced, foreign: BTreeSet::new() }
+    }
+
+    fn view(&self) -> StateView {
+        view_of_node(self.node, self.blks, &self.by_hash)
+    }
+
+    fn in_pool(&self, id: usize) -> bool {
+        self.node.controller().get_orphan_block(self.node.store(), &self.blks[id].hash).is_some()
+    }
+
+    fn lonely(&mut self, id: usize) -> LonelyBlock {
+        let block = self.blks[id].block.clone();
+        self.handed += 1;
+        *self.handed_by_id.entry(id).or_insert(0) += 1;
+        let g = Guard { id, log: self.log.clone(), called: false };
+        LonelyBlock { block, switch: None, verify_callback: Some(Box::new(move |r: VerifyResult| g.fire(r))) }
+    }
+
+    /// c01.rs's probe: outstanding callbacks == orphan pool size (sound when every pool entry and every
+    /// queued block carries a harness callback, i.e. on a node that started on a fresh directory)
+    fn wait_counting(&self) -> Result<(), String> {
+        let start = Instant::now();
+        let mut step = Duration::from_micros(200);
+        loop {
+            let (fired, dropped) = {
+                let l = self.log.lock().unwrap();
+                (l.fired, l.dropped)
+            };
+            let outstanding = self.handed - fired - dropped;
+            let pool = self.node.controller().orphan_blocks_len();
+            if outstanding == pool {
+                return Ok(());
+            }
+            if start.elapsed() > WAIT_TIMEOUT {
+                return Err(format!("no quiescence after 60s: handed={} fired={fired} dropped={dropped} orphan_pool={pool}", self.handed));
+            }
+            std::thread::sleep(step);
+            step = (step * 2).min(Duration::from_millis(1));
+        }
+    }
+
+    /// a block that looks like unfinished work: stored, no ext, not pooled, parent has an ext and is not invalid
+    fn pending_looking(&self) -> Vec<usize> {
+        let store = self.node.store();
+        let mut v = vec![];
+        for b in self.blks.iter().skip(1) {
+            let p = &self.blks[b.parent];
+            if store.get(COLUMN_BLOCK_HEADER, b.hash.as_slice()).is_some()
+                && store.get_block_ext(&b.hash).is_none()
+                && store.get_block_ext(&p.hash).is_some()
+                && self.node.shared.get_block_status(&p.hash) != BlockStatus::BLOCK_INVALID
+                && !self.in_pool(b.id)
+            {
+                v.push(b.id);
+            }
+        }
+        v
+    }
+
+    fn my_outstanding_outside_pool(&self) -> bool {
+        let l = self.log.lock().unwrap();
+        for (id, n) in &self.handed_by_id {
+            let done = l.events.iter().filter(|(i, _)| i == id).count();
+            if *n > done && !self.in_pool(*id) {
+                return true;
+            }
+        }
+        false
+    }
+
+    /// Quiescence on a restarted node. The chain-service thread is idle (a synchronous request has
+    /// returned). Tip != genesis: re-deliver the (verified) tip block with a private callback; it is
+    /// answered Ok(false) after every earlier queued block was verified (FIFO). Tip == genesis:
+    /// nothing verified exists to fence with; poll until the state is stable for 50 ms, no harness
+    /// callback is outstanding outside the pool and no block looks like unfinished work.
+    fn settle(&self) -> Result<(), String> {
+        let t0 = Instant::now();
+        let genesis = self.blks[0].hash.clone();
+        loop {
+            let tip = self.node.shared.snapshot().tip_hash();
+            if tip != genesis {
+                let block = match self.by_hash.get(&tip) {
+                    Some(i) => self.blks[*i].block.clone(),
+                    None => Arc::new(self.node.store().get_block(&tip).ok_or("tip block not in the store")?),
+                };
+                let (tx, rx) = crossbeam_channel::bounded::<bool>(1);
+                let lb = LonelyBlock { block, switch: None, verify_callback: Some(Box::new(move |r: VerifyResult| { let _ = tx.send(r.is_ok()); })) };
+                if !self.node.controller().verif_process_lonely_block_sync(lb) {
+                    return Err("the chain service has gone".into());
+                }
+                return match rx.recv_timeout(WAIT_TIMEOUT) {
+                    Ok(_) => Ok(()),
+                    Err(_) => Err(format!("verify-queue fence not answered after 60s; unfinished={:?}", self.pending_looking())),
+                };
+            }
+            let mut last = fmt_line(&[], &self.view());
+            let mut since = Instant::now();
+            loop {
+                std::thread::sleep(Duration::from_millis(5));
+                let cur = fmt_line(&[], &self.view());
+                if cur != last {
+                    last = cur;
+                    since = Instant::now();
+                } else if since.elapsed() >= Duration::from_millis(50) && !self.my_outstanding_outside_pool() && self.pending_looking().is_empty() {
+                    break;
+                }
+                if t0.elapsed() > WAIT_TIMEOUT {
+                    return Err(format!("no quiescence (tip = genesis) after 60s; unfinished={:?}", self.pending_looking()));
+                }
+            }
+            if self.node.shared.snapshot().tip_hash() == genesis {
+                return Ok(());
+            }
+        }
+    }
+
+    /// after a restart: everything InitLoadUnverified queued is handled; records the foreign pool entries
+    fn after_restart(&mut self) -> Result<(), String> {
+        let fence = LonelyBlock { block: self.blks[0].block.clone(), switch: None, verify_callback: None };
+        if !self.node.controller().verif_process_lonely_block_sync(fence) {
+            return Err("the chain service has gone".into());
+        }
+        self.settle()?;
+        self.foreign = self.blks.iter().skip(1).filter(|b| self.in_pool(b.id)).map(|b| b.id).collect();
+        Ok(())
+    }
+
+    fn deliver(&mut self, id: usize) -> Result<Delivery, String> {
+        let first = self.log.lock().unwrap().events.len();
+        let lb = self.lonely(id);
+        if !self.node.controller().verif_process_lonely_block_sync(lb) {
+            return Err("the chain service has gone".into());
+        }
+        if self.fenced {
+            self.settle()?;
+        } else {
+            self.wait_counting()?;
+        }
+        let mut events: Vec<(usize, Verdict)> = self.log.lock().unwrap().events[first..].to_vec();
+        let mut hint: Vec<usize> = events.iter().filter(|(i, v)| *v != Verdict::Drop && *i != id).map(|(i, _)| *i).collect();
+        if !self.foreign.is_empty() {
+            let store = self.node.store();
+            if self.foreign.remove(&id) && self.in_pool(id) {
+                events.push((id, Verdict::Drop));
+            }
+            for f in self.foreign.clone() {
+                if !self.in_pool(f) {
+                    let h = &self.blks[f].hash;
+                    if store.get_block_ext(h).is_some() {
+                        events.push((f, Verdict::New));
+                    } else if store.get(COLUMN_BLOCK_HEADER, h.as_slice()).is_none() {
+                        events.push((f, Verdict::Err));
+                    } else {
+                        continue;
+                    }
+                    hint.push(f);
+                    self.foreign.remove(&f);
+                }
+            }
+        }
+        events.sort();
+        Ok(Delivery { hint, cbs: events, view: self.view() })
+    }
+}
+
+// ------------------------------------------------------------------------------------------------
+// child process
+// ------------------------------------------------------------------------------------------------
+
+fn logln(f: &mut std::fs::File, s: &str) {
+    f.write_all(format!("{s}\n").as_bytes()).expect("child: write log");
+    let _ = f.flush();
+}
+
+/// `child <node_dir> <blocks_file> <log_file> <epoch_len> <ids> [fenced]`
+fn child_main(opts: &Opts) -> ! {
+    let a = &opts.extra;
+    assert!(a.len() >= 6, "child: bad arguments");
+    let node_dir = PathBuf::from(&a[1]);
+    let blocks_file = PathBuf::from(&a[2]);
+    let log_file = PathBuf::from(&a[3]);
+    let el: u64 = a[4].parse().expect("epoch_len");
+    let ids = parse_ids(&a[5]);
+    let fenced = a.get(6).map(|s| s == "fenced").unwrap_or(false);
+    let cfg = node_cfg(el);
+    let consensus = make_consensus(&cfg);
+    let blks = read_blocks(&blocks_file, &consensus);
+    let mut log = std::fs::OpenOptions::new().create(true).append(true).open(&log_file).expect("child: open log");
+    let node = Node::start(&node_dir, consensus, &cfg);
+    let t0 = Instant::now();
+    while node.controller().is_verifying_unverified_blocks_on_startup() {
+        if t0.elapsed() > WAIT_TIMEOUT {
+            logln(&mut log, "hang startup");
+            std::process::exit(3);
+        }
+        std::thread::sleep(Duration::from_micros(500));
+    }
+    {
+        let mut r = Runner::new(&node, &blks, fenced);
+        if fenced {
+            if let Err(e) = r.after_restart() {
+                logln(&mut log, &format!("hang startup {e}"));
+                std::process::exit(3);
+            }
+        }
+        logln(&mut log, &format!("start {}", ckb_db::verif_crash::count()));
+        for id in ids {
+            assert!(id < blks.len(), "child: unknown id {id}");
+            logln(&mut log, &format!("begin {} {}", id, ckb_db::verif_crash::count()));
+            match r.deliver(id) {
+                Ok(d) => logln(&mut log, &format!("done {} {} {} {}", id, ckb_db::verif_crash::count(), show_ids(&d.hint), fmt_line(&d.cbs, &d.view))),
+                Err(e) => {
+                    logln(&mut log, &format!("hang {id} {e}"));
+                    std::process::exit(3);
+                }
+            }
+        }
+        logln(&mut log, &format!("end {}", ckb_db::verif_crash::count()));
+    }
+    node.stop();
+    std::process::exit(0)
+}
+
+#[derive(Clone, Debug, PartialEq)]
+enum ChildExit {
+    Code(i32),
+    Signal(i32),
+    Timeout,
+}
+
+#[derive(Clone)]
+struct ChildJob {
+    node_dir: PathBuf,
+    log: PathBuf,
+    stderr: PathBuf,
+    ids: Vec<usize>,
+    crash: Option<String>,
+    fenced: bool,
+}
+
+struct ChildEnv {
+    exe: PathBuf,
+    out: PathBuf,
+    blocks_file: PathBuf,
+    el: u64,
+}
+
+fn run_child(env: &ChildEnv, job: &ChildJob) -> ChildExit {
+    use std::os::unix::process::ExitStatusExt;
+    use std::process::{Command, Stdio};
+    let mut c = Command::new(&env.exe);
+    c.arg("C08").arg("--out").arg(&env.out).arg("child").arg(&job.node_dir).arg(&env.blocks_file).arg(&job.log).arg(env.el.to_string()).arg(show_ids(&job.ids));
+    if job.fenced {
+        c.arg("fenced");
+    }
+    c.env_remove("VERIF_CRASH_AT");
+    if let Some(s) = &job.crash {
+        c.env("VERIF_CRASH_AT", s);
+    }
+    c.stdin(Stdio::null()).stdout(Stdio::null());
+    match std::fs::OpenOptions::new().create(true).append(true).open(&job.stderr) {
+        Ok(f) => {
+            c.stderr(f);
+        }
+        Err(_) => {
+            c.stderr(Stdio::null());
+        }
+    }
+    let mut ch = c.spawn().expect("spawn child");
+    let t0 = Instant::now();
+    loop {
+        match ch.try_wait().expect("wait child") {
+            Some(st) => {
+                return match (st.code(), st.signal()) {
+                    (Some(c), _) => ChildExit::Code(c),
+                    (None, Some(s)) => ChildExit::Signal(s),
+                    _ => ChildExit::Code(-1),
+                };
+            }
+            None => {
+                if t0.elapsed() > Duration::from_secs(300) {
+                    let _ = ch.kill();
+                    let _ = ch.wait();
+                    return ChildExit::Timeout;
+                }
+                std::thread::sleep(Duration::from_millis(2));
+            }
+        }
+    }
+}
+
+/// runs the jobs on `par` worker threads; `consume(i, exit)` is called on this thread in job order
+fn run_jobs<F: FnMut(usize, ChildExit)>(env: &ChildEnv, jobs: &[ChildJob], par: usize, mut consume: F) {
+    let next = std::sync::atomic::AtomicUsize::new(0);
+    let (tx, rx) = std::sync::mpsc::channel::<(usize, ChildExit)>();
+    std::thread::scope(|s| {
+        for _ in 0..par.clamp(1, 8).min(jobs.len().max(1)) {
+            let tx = tx.clone();
+            let next = &next;
+            s.spawn(move || loop {
+                let i = next.fetch_add(1, std::sync::atomic::Ordering::SeqCst);
+                if i >= jobs.len() {
+                    break;
+                }
+                let r = run_child(env, &jobs[i]);
+                if tx.send((i, r)).is_err() {
+                    break;
+                }
+            });
+        }
+        drop(tx);
+        let mut buf: BTreeMap<usize, ChildExit> = BTreeMap::new();
+        let mut want = 0usize;
+        while want < jobs.len() {
+            if let Some(r) = buf.remove(&want) {
+                consume(want, r);
+                want += 1;
+                continue;
+            }
+            match rx.recv() {
+                Ok((i, r)) => {
+                    buf.insert(i, r);
+                }
+                Err(_) => break,
+            }
+        }
+    });
+}
+
+#[derive(Clone)]
+struct Done {
+    id: usize,
+    count: u64,
+    hint: String,
+    line: String,
+}
+
+#[derive(Default)]
+struct ChildLog {
+    start: Option<u64>,
+    dones: Vec<Done>,
+    inflight: Option<(usize, u64)>,
+    end: Option<u64>,
+    hang: Option<String>,
+}
+
+fn parse_log(path: &Path) -> ChildLog {
+    let mut l = ChildLog::default();
+    let txt = std::fs::read_to_string(path).unwrap_or_default();
+    for line in txt.lines() {
+        let mut it = line.splitn(5, ' ');
+        match it.next() {
+            Some("start") => l.start = it.next().and_then(|x| x.parse().ok()),
+            Some("begin") => {
+                let id = it.next().and_then(|x| x.parse().ok());
+                let c = it.next().and_then(|x| x.parse().ok());
+                if let (Some(id), Some(c)) = (id, c) {
+                    l.inflight = Some((id, c));
+                }
+            }
+            Some("done") => {
+                let id = it.next().and_then(|x| x.parse().ok());
+                let c = it.next().and_then(|x| x.parse().ok());
+                let hint = it.next();
+                let rest = it.next();
+                if let (Some(id), Some(count), Some(hint), Some(rest)) = (id, c, hint, rest) {
+                    l.dones.push(Done { id, count, hint: hint.to_string(), line: rest.to_string() });
+                    l.inflight = None;
+                }
+            }
+            Some("end") => l.end = it.next().and_then(|x| x.parse().ok()),
+            Some("hang") => l.hang = Some(line.to_string()),
+            _ => {}
+        }
+    }
+    l
+}
+
+// ------------------------------------------------------------------------------------------------
+// histories
+// ------------------------------------------------------------------------------------------------
+
+struct Hist {
+    el: u64,
+    cfg: NodeCfg,
+    consensus: ckb_chain_spec::consensus::Consensus,
+    /// index = id
+    blks: Vec<Blk>,
+    by_hash: HashMap<Byte32, usize>,
+}
+
+impl Hist {
+    fn path(&self, id: usize) -> Vec<usize> {
+        let mut v = vec![];
+        let mut x = id;
+        loop {
+            v.push(x);
+            if x == 0 {
+                break;
+            }
+            x = self.blks[x].parent;
+        }
+        v.reverse();
+        v
+    }
+
+    fn total_work(&self, id: usize) -> u128 {
+        self.path(id).iter().map(|i| self.blks[*i].work).sum()
+    }
+
+    fn valid(&self, id: usize, delivered: &HashSet<usize>) -> bool {
+        self.path(id).iter().all(|i| *i == 0 || (delivered.contains(i) && self.blks[*i].kind == Kind::Valid))
+    }
+
+    /// (maximal total work of a delivered fully valid chain, its head when unique)
+    fn best(&self, delivered: &HashSet<usize>) -> (u128, Option<usize>) {
+        let mut m = 0u128;
+        let mut heads = vec![];
+        for b in &self.blks {
+            if self.valid(b.id, delivered) {
+                let w = self.total_work(b.id);
+                if w > m {
+                    m = w;
+                    heads = vec![b.id];
+                } else if w == m {
+                    heads.push(b.id);
+                }
+            }
+        }
+        (m, if heads.len() == 1 { Some(heads[0]) } else { None })
+    }
+
+    fn is_ancestor_or_self(&self, a: usize, mut b: usize) -> bool {
+        loop {
+            if a == b {
+                return true;
+            }
+            if b == 0 {
+                return false;
+            }
+            b = self.blks[b].parent;
+        }
+    }
+
+    /// how the NUMBER_HASH column iterates: (number, hash bytes)
+    fn scan_order(&self) -> Vec<usize> {
+        let mut v: Vec<usize> = (1..self.blks.len()).collect();
+        v.sort_by(|a, b| (self.blks[*a].num, self.blks[*a].hash.as_slice().to_vec()).cmp(&(self.blks[*b].num, self.blks[*b].hash.as_slice().to_vec())));
+        v
+    }
+
+    fn fingerprint(&self, order: &[usize], extra: &[u64]) -> String {
+        let mut h = 0xcbf29ce484222325u64;
+        let mut eat = |x: u64| {
+            for b in x.to_le_bytes() {
+                h ^= b as u64;
+                h = h.wrapping_mul(0x100000001b3);
+            }
+        };
+        for b in &self.blks {
+            eat(b.parent as u64);
+            eat(b.kind as u64);
+        }
+        eat(u64::MAX);
+        for a in order {
+            eat(*a as u64);
+        }
+        eat(u64::MAX);
+        for e in extra {
+            eat(*e);
+        }
+        format!("{:016x}", h)
+    }
+}
+
+struct TreeSpec {
+    parent: Vec<usize>,
+    kind: Vec<Kind>,
+    height: Vec<u64>,
+}
+
+fn gen_tree(rng: &mut Rng, n: usize) -> TreeSpec {
+    let mut parent = vec![0usize];
+    let mut height = vec![0u64];
+    for id in 1..=n {
+        let r = rng.below(100);
+        let p = if r < 55 {
+            let mh = *height.iter().max().unwrap();
+            let deepest: Vec<usize> = (0..id).filter(|i| height[*i] == mh).collect();
+            *rng.pick(&deepest)
+        } else if r < 85 {
+            // a sibling of / just below the deepest blocks: forks that overtake, ties
+            let mh = *height.iter().max().unwrap();
+            let near: Vec<usize> = (0..id).filter(|i| height[*i] + 2 >= mh && height[*i] < mh).collect();
+            if near.is_empty() { id - 1 } else { *rng.pick(&near) }
+        } else {
+            rng.below(id as u64) as usize
+        };
+        parent.push(p);
+        height.push(height[p] + 1);
+    }
+    let mut kind = vec![Kind::Valid; n + 1];
+    let mh = *height.iter().max().unwrap();
+    let leaf = (0..=n).find(|i| height[*i] == mh).unwrap();
+    let mut path = vec![];
+    let mut x = leaf;
+    while x != 0 {
+        path.push(x);
+        x = parent[x];
+    }
+    path.reverse();
+    for _ in 0..rng.below(3) {
+        let id = if !path.is_empty() && rng.chance(3, 4) {
+            if rng.chance(2, 3) && path.len() >= 4 {
+                let lo = path.len() / 4;
+                let hi = path.len() - 1 - path.len() / 4;
+                path[rng.range(lo as u64, hi as u64) as usize]
+            } else {
+                *rng.pick(&path)
+            }
+        } else {
+            rng.range(1, n as u64) as usize
+        };
+        kind[id] = if rng.chance(3, 5) { Kind::Ctx } else { Kind::Nc };
+    }
+    TreeSpec { parent, kind, height }
+}
+
+/// The restrictions that keep the commit order of a serialised delivery deterministic: the orphan pool
+/// holds at most one linear chain, and a non-contextually invalid block arrives before its children.
+fn order_ok(t: &TreeSpec, order: &[usize]) -> bool {
+    let mut delivered: HashSet<usize> = HashSet::new();
+    delivered.insert(0);
+    for id in order {
+        let p = t.parent[*id];
+        if t.kind[p] == Kind::Nc && !delivered.contains(&p) {
+            return false;
+        }
+        delivered.insert(*id);
+        let connected = |mut x: usize| {
+            while x != 0 {
+                if !delivered.contains(&x) {
+                    return false;
+                }
+                x = t.parent[x];
+            }
+            true
+        };
+        let pool: Vec<usize> = delivered.iter().copied().filter(|x| !connected(*x)).collect();
+        let mut parents = HashSet::new();
+        let mut leaders = 0;
+        for x in &pool {
+            if !parents.insert(t.parent[*x]) {
+                return false;
+            }
+            if !pool.contains(&t.parent[*x]) {
+                leaders += 1;
+            }
+        }
+        if leaders > 1 {
+            return false;
+        }
+    }
+    true
+}
+
+fn gen_order(rng: &mut Rng, t: &TreeSpec) -> Vec<usize> {
+    let n = t.parent.len() - 1;
+    let inorder: Vec<usize> = (1..=n).collect();
+    let mut order = inorder.clone();
+    let variant = rng.below(100);
+    if variant < 35 {
+        // pure in-order
+    } else if variant < 75 {
+        // one out-of-order linear segment p1 <- .. <- pk
+        let cands: Vec<usize> = (1..=n).filter(|c| t.height[*c] >= 2).collect();
+        if !cands.is_empty() {
+            let c = *rng.pick(&cands);
+            let k = rng.range(2, 4).min(t.height[c]) as usize;
+            let mut seg = vec![c];
+            while seg.len() < k {
+                let p = t.parent[*seg.last().unwrap()];
+                seg.push(p);
+            }
+            // seg = [pk, .., p1]
+            let p1 = *seg.last().unwrap();
+            let scrambled: Vec<usize> = if rng.chance(1, 2) {
+                seg.clone()
+            } else {
+                // children in order, the first parent last
+                let mut v: Vec<usize> = seg[..seg.len() - 1].iter().rev().copied().collect();
+                v.push(p1);
+                v
+            };
+            let mut o: Vec<usize> = inorder.iter().copied().filter(|i| *i < p1).collect();
+            let rest: Vec<usize> = inorder.iter().copied().filter(|i| *i > p1 && !seg.contains(i)).collect();
+            // non-descendants of p1 may be interleaved into the segment
+            let is_desc = |mut x: usize| {
+                while x != 0 {
+                    if x == p1 {
+                        return true;
+                    }
+                    x = t.parent[x];
+                }
+                false
+            };
+            let mut inter: Vec<usize> = vec![];
+            if rng.chance(1, 2) {
+                if let Some(x) = rest.iter().find(|x| !is_desc(**x)) {
+                    inter.push(*x);
+                }
+            }
+            let pos = rng.range(1, scrambled.len() as u64 - 1) as usize;
+            for (i, s) in scrambled.iter().enumerate() {
+                if i == pos {
+                    o.extend(inter.iter().copied());
+                }
+                o.push(*s);
+            }
+            o.extend(rest.iter().copied().filter(|x| !inter.contains(x)));
+            order = o;
+        }
+    } else {
+        // a withheld block with one linear chain of descendants delivered; the block itself last or never
+        let cands: Vec<usize> = (1..=n).filter(|w| (1..=n).any(|c| t.parent[c] == *w)).collect();
+        if !cands.is_empty() {
+            let w = *rng.pick(&cands);
+            let mut keep = vec![];
+            let mut x = w;
+            loop {
+                let ch: Vec<usize> = (1..=n).filter(|c| t.parent[*c] == x).collect();
+                if ch.is_empty() || keep.len() >= 3 {
+                    break;
+                }
+                x = *rng.pick(&ch);
+                keep.push(x);
+            }
+            let is_desc = |mut x: usize| {
+                while x != 0 {
+                    if x == w {
+                        return true;
+                    }
+                    x = t.parent[x];
+                }
+                false
+            };
+            let mut o: Vec<usize> = inorder.iter().copied().filter(|i| !is_desc(*i) || keep.contains(i)).collect();
+            if rng.chance(1, 2) {
+                o.push(w);
+                // and the descendants left out, now in order
+                o.extend(inorder.iter().copied().filter(|i| is_desc(*i) && *i != w && !keep.contains(i)));
+            }
+            order = o;
+        }
+    }
+    if !order_ok(t, &order) {
+        order = inorder.clone();
+    }
+    // duplicates (a verified block, an invalid block, a pooled orphan)
+    let dups = rng.range(1, 3);
+    for _ in 0..dups {
+        let i = rng.below(order.len() as u64) as usize;
+        let id = order[i];
+        let pos = rng.range(i as u64 + 1, order.len() as u64) as usize;
+        let mut o = order.clone();
+        o.insert(pos, id);
+        if order_ok(t, &o) {
+            order = o;
+        }
+    }
+    order
+}
+
+fn build_history(rng: &mut Rng, opts: &Opts, bdir: &Path) -> (Hist, ChainBuilder, Vec<usize>) {
+    let el = rng.range(3, 6);
+    let cfg = node_cfg(el);
+    let consensus = make_consensus(&cfg);
+    let n = if opts.thorough() { rng.range(8, 25) } else { rng.range(6, 14) } as usize;
+    let tree = gen_tree(rng, n);
+    let order = gen_order(rng, &tree);
+    let mut builder = ChainBuilder::new(consensus.clone(), bdir);
+    builder.max_branch_stores = 12;
+    let mut blks = vec![genesis_blk(&consensus)];
+    for id in 1..=n {
+        let p = blks[tree.parent[id]].clone();
+        let g = if p.id != 0 { Some(blks[p.parent].clone()) } else { None };
+        let b = build_blk(&mut builder, id, &p, g.as_ref(), tree.kind[id]);
+        blks.push(b);
+    }
+    let by_hash = hash_map(&blks);
+    (Hist { el, cfg, consensus, blks, by_hash }, builder, order)
+}
+
+// ------------------------------------------------------------------------------------------------
+// the consistency oracle on a database opened without services
+// ------------------------------------------------------------------------------------------------
+
+/// returns the persisted view and the ids stored without ext
+fn check_store(out: &mut Out, db: &ChainDB, h: &Hist, builder: &mut ChainBuilder, what: &str) -> (StateView, Vec<usize>) {
+    let v = view_of_store(db, &h.blks, &h.by_hash);
+    let has_ext: HashSet<usize> = v.ext.iter().map(|(i, _)| *i).collect();
+    let unext: Vec<usize> = v.stored.iter().copied().filter(|i| *i != 0 && !has_ext.contains(i)).collect();
+    for id in &v.ext_false {
+        out.oracle_fail("ext-false", &format!("{what}: block {id} has a persisted ext with verified == Some(false)"));
+    }
+    for b in h.blks.iter().skip(1) {
+        if has_ext.contains(&b.id) && !has_ext.contains(&b.parent) {
+            out.oracle_fail("ext-parent", &format!("{what}: block {} has an ext but its parent {} has none", b.id, b.parent));
+        }
+    }
+    let Some(tip_header) = db.get_tip_header() else {
+        out.oracle_fail("tip-missing", &format!("{what}: no tip header"));
+        return (v, unext);
+    };
+    let tip_hash = tip_header.hash();
+    match db.get_block_ext(&tip_hash) {
+        None => out.oracle_fail("tip-missing", &format!("{what}: the tip {} has no ext", tip_hash)),
+        Some(e) if e.verified != Some(true) => out.oracle_fail("tip-missing", &format!("{what}: the tip's ext has verified = {:?}", e.verified)),
+        _ => {}
+    }
+    let Some(tip) = h.by_hash.get(&tip_hash).copied() else {
+        out.oracle_fail("tip-invalid", &format!("{what}: the tip {} is not a block of the history", tip_hash));
+        return (v, unext);
+    };
+    let path = h.path(tip);
+    let on_path: HashSet<usize> = path.iter().copied().collect();
+    for (i, id) in path.iter().enumerate() {
+        let b = &h.blks[*id];
+        let got = db.get_block_hash(i as u64);
+        if got.as_ref() != Some(&b.hash) {
+            out.oracle_fail("index", &format!("{what}: tip={tip}: number {i} maps to {:?}, the tip's ancestor there is block {id}", got.map(|g| h.by_hash.get(&g).copied())));
+        }
+        let n = db.get_block_number(&b.hash);
+        if n != Some(i as u64) {
+            out.oracle_fail("index", &format!("{what}: tip={tip}: main-chain block {id} has number index {n:?}, expected {i}"));
+        }
+        if !has_ext.contains(id) || !v.ver.contains(id) {
+            out.oracle_fail("ancestor-unverified", &format!("{what}: tip={tip}: block {id} on the tip's path has no ext with verified == Some(true)"));
+        }
+        if b.kind != Kind::Valid {
+            out.oracle_fail("tip-invalid", &format!("{what}: tip={tip}: block {id} on the tip's path is an invalid block"));
+        }
+    }
+    if let Some(x) = db.get_block_hash(path.len() as u64) {
+        out.oracle_fail("index", &format!("{what}: tip={tip} (number {}): the number index has an entry above the tip: {:?}", path.len() - 1, h.by_hash.get(&x)));
+    }
+    for b in &h.blks {
+        if !on_path.contains(&b.id) {
+            if let Some(n) = db.get_block_number(&b.hash) {
+                out.oracle_fail("index", &format!("{what}: tip={tip}: block {} is not on the tip's path but has a number index {n}", b.id));
+            }
+        }
+    }
+    let want = h.total_work(tip);
+    if v.td != want {
+        out.oracle_fail("td", &format!("{what}: tip={tip}: ext.total_difficulty={} but the work along its path is {want}", v.td));
+    }
+    if path.iter().all(|i| h.blks[*i].kind == Kind::Valid) {
+        let replay = builder.replay_store(&tip_hash);
+        let mut bad = vec![];
+        for b in &h.blks {
+            for tx in b.block.transactions() {
+                for i in 0..tx.outputs().len() {
+                    let op = OutPoint::new(tx.hash(), i as u32);
+                    if db.have_cell(&op) != replay.have_cell(&op) || db.get_cell(&op) != replay.get_cell(&op) {
+                        bad.push(format!("blk{}/tx{}/{}:node_live={}", b.id, tx.hash(), i, db.have_cell(&op)));
+                    }
+                }
+            }
+        }
+        if !bad.is_empty() {
+            out.oracle_fail("cells", &format!("{what}: tip={tip}: live cells differ from a replay of the tip's path: {}", bad.join(",")));
+        }
+        let (a, b) = (db.get_current_epoch_ext(), replay.get_current_epoch_ext());
+        if a != b {
+            out.oracle_fail("cells", &format!("{what}: tip={tip}: current epoch ext {:?} differs from the replay's {:?}", a.map(|e| (e.number(), e.start_number(), e.length())), b.map(|e| (e.number(), e.start_number(), e.length()))));
+        }
+    }
+    (v, unext)
+}
+
+/// the blocks InitLoadUnverified must pick up (independent re-statement of find_unverified_blocks)
+fn expected_scan(h: &Hist, tip: usize, unext: &[usize]) -> Vec<usize> {
+    let t = h.blks[tip].num;
+    let start = std::cmp::max(1, t.saturating_sub(ckb_chain::VERIF_ORPHAN_EXPIRED_EPOCH * h.consensus.max_epoch_length()));
+    let nums: HashSet<u64> = unext.iter().map(|i| h.blks[*i].num).collect();
+    unext.iter().copied().filter(|c| {
+        let n = h.blks[*c].num;
+        n >= start && ((t + 1)..=n).all(|x| nums.contains(&x))
+    }).collect()
+}
+
+// @@NEXT@@
